@@ -426,8 +426,11 @@ def reuse_scenarios(draw):
             r["file"] = src.int(0, 1)
     sc["opts"] = ["--data_type", src.choice(["nanopore", "pacbio_ccs"]), "--no_gzip", "--threads",
                   str(src.choice([1, 2]))]
-    if grouped:
+    sc["group_mode"] = src.choice(["tag", "tag", "file"]) if grouped else None
+    if grouped and sc["group_mode"] == "tag":
         sc["opts"] += ["--read_group", "tag:RG"]
+    # characters that mean something to glob / shells in the name of the output folder
+    sc["out_name"] = src.choice(["out", "out", "out", "run[1]", "o*t", "r?n"])
     if src.bool(0.4):
         sc["opts"] += ["--count_exons"]
     if src.bool(0.3):
@@ -439,7 +442,17 @@ def reuse_scenarios(draw):
 
 def eval_reuse(case, ctx):
     sc = case
-    res = pipeline.run_case(sc, ctx, extra=["--keep_tmp"])
+    gextra = []
+    d0 = ctx.scratch()
+    if sc.get("group_mode") == "file":
+        os.makedirs(os.path.join(d0, "in"), exist_ok=True)
+        tp = os.path.join(d0, "in", "groups.tsv")
+        with open(tp, "w") as f:
+            for r in sc["reads"]:
+                if r.get("tags"):
+                    f.write("%s\t%s\n" % (r["n"], r["tags"]["RG"]))
+        gextra = ["--read_group", "file:" + tp]
+    res = pipeline.run_case(sc, ctx, extra=["--keep_tmp"] + gextra, d=d0, out_name=sc.get("out_name", "out"))
     try:
         if res.code != 0:
             ctx.note("crash:" + res.crash_signature())
@@ -448,7 +461,7 @@ def eval_reuse(case, ctx):
         from vlib import build
         out2 = os.path.join(res.dir, "out2")
         argv = ["--reference", res.paths["fasta"], "-o", out2, "--genedb", res.paths["gtf"], "--complete_genedb",
-                "--read_assignments", save] + list(sc["opts"])
+                "--read_assignments", save] + list(sc["opts"]) + gextra
         if sc.get("restart_with_bam"):
             argv += ["--bam"] + res.paths["bams"]
         from vlib import run
